@@ -838,6 +838,14 @@ let scripts () : script list = [
   (* a root whose full-move number is 0, both sides *)
   { sc_name = "fullmove_zero"; sc_dfrc = false; sc_fen = "r3k2r/pppppppp/8/8/8/8/PPPPPPPP/R3K2R w KQkq - 0 0"; sc_every = 1; sc_shard0 = false;
     sc_ops = [ "a2a3"; "a7a6"; "undo"; "undo"; "null"; "a7a6"; "undo"; "undo"; "e1h1"; "e8a8" ] };
+  (* a full-move number of 2^64-1 (std::size_t max): Black's move wraps the C++ counter to 0 and undoing it wraps it back;
+     made, compared (counter modulo 2^64, CounterWrap.v), undone and compared with the dump saved before the move — from the
+     root, one ply deeper after a White move, across a null move, and walked on past the wrap *)
+  { sc_name = "fullmove_wrap"; sc_dfrc = false; sc_fen = "r3k2r/pppq1ppp/2n2n2/3pp3/3PP3/2N2N2/PPPQ1PPP/R3K2R b KQkq - 4 18446744073709551615"; sc_every = 1; sc_shard0 = false;
+    sc_ops = [ "a7a6"; "undo"; "e8h8"; "undo"; "d5e4"; "c3e4"; "f6e4"; "undo"; "undo"; "undo"; "null"; "a2a3"; "a7a6"; "undo"; "undo"; "undo";
+               "e8a8"; "e1h1"; "c8b8"; "g1h1"; "b8a8" ] };
+  { sc_name = "fullmove_wrap_white"; sc_dfrc = false; sc_fen = "r3k2r/pppq1ppp/2n2n2/3pp3/3PP3/2N2N2/PPPQ1PPP/R3K2R w KQkq - 4 18446744073709551615"; sc_every = 1; sc_shard0 = false;
+    sc_ops = [ "a2a3"; "a7a6"; "undo"; "undo"; "e1h1"; "e8a8"; "undo"; "d5e4"; "undo"; "undo"; "d4e5"; "c6e5"; "f3e5" ] };
   (* the argument of makemove lives inside the position's own history while the history grows across every capacity boundary *)
   { sc_name = "move_from_own_history"; sc_dfrc = false; sc_fen = startfen; sc_every = 8; sc_shard0 = false;
     sc_ops = knight_cycle @ List.init 140 (fun i -> Printf.sprintf "makehist:%d:%s" i (List.nth knight_cycle (i mod 4))) };
@@ -923,11 +931,11 @@ let () =
                  op_setfen s true (fen_string true pa); ignore (visit s r pl))) (rook_identity_pairs r (max 1 ((if !tier = "quick" then 64 else 1200) / !nshards)));
          run_positions s r corpus { none with p_moves = true; p_into = true; p_islegal = true; depth = 10; undo_pct = 5; null_pct = 2 } 3000 60000 ~extra:fam ()
        | "C02" ->
-         run_scripts s r { none with p_state = true } [ "fullmove_zero" ];
+         run_scripts s r { none with p_state = true } [ "fullmove_zero"; "fullmove_wrap"; "fullmove_wrap_white" ];
          run_positions s r corpus { none with p_state = true; p_maketext = true; depth = 40; undo_pct = 4; null_pct = 4 } 3000 100000
                     ~extra:(tagged "castling_family" (castling_family r (400 / !nshards)) @ tagged "promo_family" (promo_family r (300 / !nshards))) ()
        | "C03" ->
-         run_scripts s r { none with p_state = true; p_hist = true } [ "very_long_history"; "fullmove_zero"; "move_from_own_history"; "king_takes_castling_rook"; "king_takes_castling_rook_black" ];
+         run_scripts s r { none with p_state = true; p_hist = true } [ "very_long_history"; "fullmove_zero"; "fullmove_wrap"; "fullmove_wrap_white"; "move_from_own_history"; "king_takes_castling_rook"; "king_takes_castling_rook_black" ];
          run_positions s r corpus { none with p_state = true; p_hist = true; p_moves = true; depth = 120; undo_pct = 30; null_pct = 6 } 800 20000
            ~extra:(hash_sentinel_starts s r) ()
        | "C05" ->
